@@ -5,7 +5,9 @@ import small_corr, text_corr, factory_corr
 def explore(run, lean):
     quick = run.tier == "quick"
     small_corr.explore_instances(run, 300 if quick else 6000)
-    run.extra["rule"] = ("random sequences of instance creation, assignment and reads on fresh classes with a thread-safe attribute, compared with a per-instance last-write model")
+    small_corr.explore_instances_threads(run, 40 if quick else 1000)
+    run.extra["rule"] = ("random sequences of instance creation, assignment and reads on fresh classes with a thread-safe attribute, compared with a per-instance last-write model (40% of the classes compare and hash by value, so all instances are equal); "
+                         "plus 2-3 threads each reading / assigning its own instance, interleaved bytecode by bytecode")
 
 
 def replay(case):
